@@ -80,6 +80,63 @@ CHECKS.update({
                 technique="TLA+ grammar spec (Shell.tla) checked by TLC; TLC trace validation of every system() command line of the real client"),
 })
 
+FN_NOTE = ("Assumes: TLC/JVM (and the CommunityModules Java overrides) trusted; the driver links the objects built from /repo's "
+           "current working tree; exhaustive claims hold for the stated small domains only, larger inputs are seeded samples.")
+CHECKS.update({
+    "C07": dict(cat="exploration", ref="DESIGN.md §6 C07", note=FN_NOTE,
+                text="spec/Codec.tla defines the four codecs from the protocol document; TLC proves the reference lossless / "
+                     "alphabet-pure for all short inputs, and evaluates the C07 predicates (capacity respected incl. guard bytes, "
+                     "alphabet, reported prefix decodes exactly with the reference AND the real decoder, ratio, progress, chunk "
+                     "tiling, decoder capacity) on every recorded call of the real entry points: exhaustive for <= 1 byte x all "
+                     "capacities and all/sampled byte pairs, byte pairs in every block position, every/sampled length 0..4096.",
+                technique="TLA+ function spec (Codec.tla) as executable reference; TLC trace validation of recorded encoder/decoder calls"),
+    "C08": dict(cat="exploration", ref="DESIGN.md §6 C08", note=FN_NOTE,
+                text="spec/Hostname.tla (over Codec.tla and Domain.tla): TLC judges every build_hostname() event (all L in 100..255 x "
+                     "domain lengths x 4 codecs x payload-length classes) - legal name, <= L, ends in the domain, reported prefix "
+                     "decodes exactly, server-side extraction (dns_encode -> dns_decode -> query_datalen -> unpack_data, plain and "
+                     "wildcard-served) returns the same prefix - and every query name of the real client in simulated sessions.",
+                technique="TLA+ function spec (Hostname.tla); TLC trace validation of recorded builder/extraction calls and wire names"),
+    "C09": dict(cat="exploration", ref="DESIGN.md §6 C09", note=FN_NOTE,
+                text="The REAL pipe write_dns() (iodined.c) -> wire -> read_dns_withq() (client.c) is driven for payload lengths "
+                     "2..4096 x 7 record types x legal downstream codecs x shortest/longest name x 4 contents; TLC (Downstream.tla) "
+                     "regenerates each payload and accepts only exact / proper-prefix / empty results and exactness monotone in length.",
+                technique="TLA+ spec (Downstream.tla); TLC trace validation of the recorded real downstream pipe"),
+    "C10": dict(cat="exploration", ref="DESIGN.md §6 C10", note=FN_NOTE,
+                text="spec/DnsWire.tla is a strict RFC 1035 parser in TLA+ (counts, labels, names <= 255, backward pointers to label "
+                     "boundaries of earlier names, RDLENGTH = data size, TXT tiling, no trailing bytes) plus Echoes / NS / A predicates; "
+                     "TLC parses every sampled datagram of simulated sessions, the real answer writer's output across type x codec x "
+                     "size, and the auxiliary NS/A answers of the real server.",
+                technique="TLA+ spec (DnsWire.tla, a strict parser); TLC trace validation of emitted datagrams as integer sequences"),
+    "C11": dict(cat="model_checking", ref="DESIGN.md §6 C11",
+                text="spec/Negotiation.tla models the client's handshake decision procedure against the whole relay family "
+                     "(12.2M states: Sound*, Complete); the real client+server run through relays of the family (quick: covering "
+                     "sample, thorough: all); completeness judged by MonNegotiation, soundness by offering packets afterwards "
+                     "(MonProgress clean mode, MonIntegrity); every real negotiation outcome is validated against the model's "
+                     "prediction (binding, zero drift). Two known findings (Raw test pattern lacks '+', forced -O untested).",
+                technique="TLA+ spec (Negotiation.tla) + TLC model checking over the relay family; TLC trace validation of real "
+                          "handshakes/transfers (MonNegotiation, MonProgress, MonIntegrity, TraceNegotiation)"),
+    "C17": dict(cat="exploration", ref="DESIGN.md §6 C17", note=FN_NOTE,
+                text="spec/Domain.tla is written from the statement; TLC compares every check_topdomain()/query_datalen() result - "
+                     "exhaustively over all strings of a 7-character alphabet (validation to length 7 / matching to length 8 thorough), "
+                     "boundary and random long cases - and the real server's forward-or-tunnel decision with the definition.",
+                technique="TLA+ function spec (Domain.tla); TLC trace validation of exhaustive recorded calls and server dispatch"),
+    "C18": dict(cat="exploration", ref="DESIGN.md §6 C18", note=FN_NOTE,
+                text="spec/AddrPool.tla (octet arithmetic); TLC judges init_users() for every host position of /16../30 (thorough) "
+                     "and sampled /8../15, find_user_by_ip() under generated slot states, and the mask range check of the real main(); "
+                     "the lookup half is also an invariant of Session.tla.",
+                technique="TLA+ function spec (AddrPool.tla); TLC trace validation of exhaustive recorded calls"),
+    "C19": dict(cat="exploration", ref="DESIGN.md §6 C19", note=FN_NOTE,
+                text="spec/MD5.tla implements RFC 1321 in TLA+ (validated against the RFC test suite) and Login.tla the documented "
+                     "response; TLC recomputes every login_calculate() result (passwords 0..40 bytes, boundary and random "
+                     "challenges, differential pairs) and the login / raw-login (seed+1) / raw-reply (seed-1) bytes of real sessions.",
+                technique="TLA+ implementation of MD5 + login response as independent oracle; TLC trace validation of recorded calls and wire messages"),
+    "C20": dict(cat="model_checking", ref="DESIGN.md §6 C20",
+                text="TLC model-checks spec/FwQuery.tla exhaustively (RoutedToAsker, SameId, RingIsRecent); ALL histories of the model "
+                     "to depth 3/4 and simulated 60-step histories (ring of 16, id reuse, > 16 outstanding) are exported from TLC and "
+                     "executed on the real iodined -b with scripted requesters and resolver; judged by MonFwd, bound to FwQuery.tla.",
+                technique="TLA+ spec (FwQuery.tla) + TLC model checking; all TLC paths replayed into the real server; TLC trace validation"),
+})
+
 NOT_YET = "check not built yet in this revision (work in progress; see DESIGN.md §6 for the plan)"
 
 
@@ -98,7 +155,7 @@ def main():
             "thorough_cmd": "bin/check %s --tier thorough" % p,
             "evidence_file": "/verif/evidence/%s.json" % p,
             "replay_cmd_template": "bin/check %s --replay {path}" % p,
-            "engine": "tlc+simk",
+            "engine": "tlc+simk" if p not in ("C07", "C08", "C09", "C17", "C18", "C19") else "tlc+drivers",
             "level_claimed": {"category": c["cat"], "text": c["text"], "design_ref": c["ref"]},
             "level_note": c.get("note", SIM_NOTE),
             "technique": c["technique"],
@@ -111,8 +168,13 @@ def main():
                   "and the exported users[] table)",
                   "baseline_off_cmd": "make -C /repo clean >/dev/null; make -C /repo test",
                   "source_commits": [], "add_only": True},
-        "engines": [{"name": "tlc+simk", "path": "/verif/bin/check",
-                     "serves_properties": [c["property_id"] for c in checks],
+        "engines": [{"name": "tlc+drivers", "path": "/verif/bin/check",
+                     "serves_properties": [c["property_id"] for c in checks if c["engine"] == "tlc+drivers"],
+                     "kind_free_text": "Layer-C function specs in TLA+ (Codec, Hostname, Downstream, Domain, AddrPool, MD5/Login); "
+                                       "C drivers (harness/drv_*.c) linked against objects built from /repo record call events; TLC "
+                                       "judges every event (sharded trace validation)"},
+                    {"name": "tlc+simk", "path": "/verif/bin/check",
+                     "serves_properties": [c["property_id"] for c in checks if c["engine"] == "tlc+simk"],
                      "kind_free_text": "explicit TLA+ specs (spec/*.tla) checked with TLC; real iodine/iodined main()s run in a "
                                        "deterministic simulation kernel (harness/simk.c, ld --wrap) driven from pylib/world.py; "
                                        "recorded executions validated by TLC against monitor specs"}],
